@@ -244,6 +244,8 @@ func (s *c01Summ) noWriteOnEdge(e an.CondEdge, call *ssa.Call) bool {
 }
 
 func runC01(c *an.Ctx) {
+	c.Floor("C01-R12", 2)
+	mainmwFilterSteps(c, "C01-R12")
 	c01Unvalidated(c)
 	c.Floor("C01-R10", 1)
 	mainPipeline(c, "C01-R10")
